@@ -527,7 +527,7 @@ fn list_lengths(rng: &mut Rng, n: usize, nb: &Option<NullBuffer>) -> Vec<usize> 
     (0..n)
         .map(|i| {
             let null = nb.as_ref().map(|x| x.is_null(i)).unwrap_or(false);
-            if null && rng.chance(2, 3) {
+            if null && (rng.chance(2, 3) || std::env::var("E_IO_NO_GARBAGE").is_ok()) {
                 // most null lists are empty, some carry garbage items
                 return 0;
             }
